@@ -3,6 +3,7 @@ import FV.IoAsync
 import FV.IoAsyncRecv
 import FV.IoArb
 import FV.IoPipeLive
+import FV.IoAsyncLoop
 /-! # C08 — async IO: both futures are stuttering refinements of the blocking loops; the pipe between them is a FIFO
 
 The executor and the waker are not in the model. The harness drives the real futures with a counting waker: a task is
@@ -59,4 +60,26 @@ example : (arecv (Ty.vec u8 L16).dict false [.deliver 2, .pending, .pending, .de
 
 /-- non-vacuity: one poll hands over two bytes and is suspended by the pipe; the position is kept -/
 example : apoll [1,2,3] [.ok 2, .pending, .ok 9] ⟨0, [], false⟩ = (.pending, ⟨2, [1,2], false⟩, [.ok 9]) := by decide
+
+/-- **C08 (the async receiver delivers).** For every well-formed message type with `MIN_SIZE > 0`, every list of messages, every
+buffer that holds twice the largest one, and every script of `poll_read` outcomes — `Pending` any number of times anywhere — whose
+non-`Pending` entries are positive read sizes and are numerous enough: the async receive loop (await `recv`, look through the guard,
+drop it; repeat) yields exactly the sent messages, in order, then `Closed`. No message is lost, duplicated, reordered or altered by
+suspension; no fault, no `OutOfMemory`. (Composition of `C08_receiver_refines_blocking`, lifted to the loop, with
+`C07_receiver_delivers`.) -/
+theorem C08_async_receiver_delivers (t : Ty) (h : t.WF) (hmin : 0 < t.dict.minSize) (msgs : List Bytes)
+    (hmsgs : ∀ m ∈ msgs, ∀ a, a % t.dict.align = 0 → t.dict.validate ⟨a, m⟩ = .ok () ∧ t.dict.size ⟨a, m⟩ = .ok m.length)
+    (base cap : Nat) (hbase : base % t.dict.align = 0) (hcap : 0 < cap) (hfit : ∀ m ∈ msgs, 2 * m.length ≤ cap)
+    (aevs : List AREv) (hevs : Covers (eraseP aevs) ((flat msgs).length + 1)) :
+    arecvLoop t.dict (msgs.length + 1) aevs ⟨base, cap, 0, []⟩ (flat msgs) = msgs.map .msg ++ [.closed] := by
+  have hb := FV.C07_receiver_delivers t h hmin msgs hmsgs base cap hbase hcap hfit (eraseP aevs) hevs
+  rw [arecvLoop_eq t.dict _ aevs _ _ (by rw [hb]; simp), hb]
+
+/-- non-vacuity of the script hypothesis: `Pending` before, between and inside the reads; the type and message hypotheses are those of
+`C07_receiver_delivers` (met by `S1` and by the `u16` example there) -/
+example : Covers (eraseP [.pending, .deliver 1, .pending, .pending, .deliver 3, .deliver 9, .pending, .deliver 9]) 4 := by
+  refine ⟨by decide, ?_⟩
+  intro ev hev
+  simp only [eraseP, List.mem_cons, List.not_mem_nil, or_false] at hev
+  rcases hev with rfl | rfl | rfl | rfl <;> exact ⟨_, rfl, by decide⟩
 end FV.Props
